@@ -47,8 +47,13 @@ PROFILES = ["simple", "dist_radial", "full_mix", "multi_island", "weakly_meshed"
 
 def make_net(g, seed):
     net = netgen.rnd_net(seed, g.C(PROFILES))
-    if g.B(0.4) and len(net.load):
+    r = g.rng.random()
+    if r < 0.35 and len(net.load):
         net.load["scaling"] = net.load.scaling * g.R(30, 200)      # power flow fails -> overload check depends on its factor
+    elif r < 0.65 and len(net.sgen):
+        # generation overload: far too much infeed at one sgen - scaling the loads down does not help, scaling generation does
+        net.sgen.loc[net.sgen.index[0], "p_mw"] = max(float(net.load.p_mw.sum()), 1.0) * g.R(300, 3000)
+        net.sgen.loc[net.sgen.index[0], "in_service"] = True
     if g.B(0.3) and len(net.line):
         net.line.loc[net.line.index[0], "length_km"] = g.R(1e-4, 1e-3)
     if g.B(0.2) and len(net.switch):
